@@ -244,6 +244,8 @@ def make_options(rng, kind, data, ns_min=0):
     lab = {}
     if rng.random() < 0.6:
         lab["maxPos"] = rng.choice([100, 200, 360])
+    if rng.random() < 0.15:
+        lab["minPos"] = rng.choice([None, None, 10])       # the lower bound switched off (or moved), with or without an upper one
     lab["nodeSpacing"] = rng.choice([3, 3, 4, 6] if ns_min >= 3 else [3, 3, 0, 1, 5])
     if rng.random() < 0.3:
         lab["algorithm"] = rng.choice(["simple", "none", "overlap"])
@@ -255,6 +257,10 @@ def make_options(rng, kind, data, ns_min=0):
          "dotRadius": rng.choice([3, 5])}
     if rng.random() < 0.3:
         o["margin"] = rng.choice([{"left": 0, "right": 0, "top": 0, "bottom": 0}, {"left": 35, "right": 5, "top": 12, "bottom": 48}])
+    if rng.random() < 0.2:
+        # TeX-side options (partial dict: merged with the defaults); none of them is geometry
+        o["latex"] = rng.choice([{"tickCross": True}, {"linkThickness": "thin", "axisThickness": "thick"}, {"fontsize": "10pt"},
+                                 {"reproducible": True, "tickThickness": "very thin"}, {"preamble": "\\usepackage{lmodern}", "borderThickness": "thin"}])
     colkind = rng.choice(["default", "hex3", "hex6", "list", "func"])
     if colkind == "hex3":
         o["dotColor"] = o["linkColor"] = "#a1f"
@@ -443,7 +449,7 @@ D_SPANS = ["zero", "ms3", "ms7", "subsec", "s1", "day", "monthend", "leap", "yea
 D_OPTS = ["omitted", "empty", "partial"]
 D_DIRS = ["up", "down", "left", "right"]
 D_ALGS = ["overlap", "simple", "none"]
-D_BOUNDS = ["none", "max", "zero"]
+D_BOUNDS = ["none", "max", "zero", "maxonly"]
 
 
 def descriptors():
@@ -536,6 +542,9 @@ def concretise(desc, rng):
     else:
         lab = {"algorithm": desc["alg"]}
         if desc["bounds"] == "max":
+            lab["maxPos"] = rng.choice([200, 360])
+        elif desc["bounds"] == "maxonly":
+            lab["minPos"] = None                                       # the left wall switched off, an upper bound kept
             lab["maxPos"] = rng.choice([200, 360])
         elif desc["bounds"] == "zero":
             lab["minPos"] = lab["maxPos"] = rng.choice([0, 120])       # an empty band: both bounds given and equal
